@@ -51,6 +51,21 @@ def confirm(mut):
     try:
         rc, out = sh("go build ./... && go test -vet=off -count=1 -timeout 20m ./... 2>&1 | tail -400", d)
         ft = [t for t in failed_tests(out) if t != "Test_syncHead"]
+        # sleep/deadline based tests fail intermittently on a loaded machine, with and without any change:
+        # a failed test counts only if it also fails when re-run on its own (3 attempts)
+        still = []
+        for t in ft:
+            top = t.split("/")[0]
+            ok_once = False
+            for _ in range(3):
+                rc2, out2 = sh("go test -vet=off -count=1 -timeout 10m -run '^%s$' ./... 2>&1 | tail -60" % top, d)
+                if top not in failed_tests(out2) and t not in failed_tests(out2):
+                    ok_once = True
+                    break
+            if not ok_once:
+                still.append(t)
+        res["suite_failed_first_run"] = ft
+        ft = still
         res["suite_failed_tests_with_patch"] = ft
         res["suite_passes_with_patch"] = not ft and "build failed" not in out and "cannot" not in out.split("FAIL")[0][-200:]
         if os.path.exists(demo):
